@@ -71,12 +71,12 @@ func (r *Runner) observeGraph() map[string]any {
 			for rel := range relSet {
 				if edges, ok := e.VGetEdges(r.P.GName, n, rel, T); ok {
 					for _, ed := range edges {
-						outq = append(outq, []any{rank(T), r.modelID(n), r.modelID(ed.TargetID), rel})
+						outq = append(outq, q(rank(T), r.modelID(n), r.modelID(ed.TargetID), rel))
 					}
 				}
 				if edges, ok := e.VGetIncomingEdges(r.P.GName, n, rel, T); ok {
 					for _, ed := range edges {
-						inq = append(inq, []any{rank(T), r.modelID(ed.TargetID), r.modelID(n), rel})
+						inq = append(inq, q(rank(T), r.modelID(ed.TargetID), r.modelID(n), rel))
 					}
 				}
 			}
@@ -87,17 +87,21 @@ func (r *Runner) observeGraph() map[string]any {
 		for rel := range relSet {
 			if ts, ok := e.VGetLinks(r.P.GName, n, rel); ok {
 				for _, t := range ts {
-					outq = append(outq, []any{float64(0), r.modelID(n), r.modelID(t), rel})
+					outq = append(outq, q(0, r.modelID(n), r.modelID(t), rel))
 				}
 			}
 			if ss, ok := e.VGetIncoming(r.P.GName, n, rel); ok {
 				for _, s := range ss {
-					inq = append(inq, []any{float64(0), r.modelID(s), r.modelID(n), rel})
+					inq = append(inq, q(0, r.modelID(s), r.modelID(n), rel))
 				}
 			}
 		}
 	}
 	return map[string]any{"versions": versions, "outq": dedup(outq), "inq": dedup(inq)}
+}
+
+func q(T float64, s, t, r string) map[string]any {
+	return map[string]any{"T": T, "s": s, "t": t, "r": r}
 }
 
 func dedup(xs []any) []any {
